@@ -58,6 +58,8 @@ def gen_cases(tier, seed):
                 continue
             cases.append(dict(eq=eqn, d=d, fam="rand", nfields=nf, seed=seed, cost=2.0))
             cases.append(dict(eq=eqn, d=d, fam="exact", nfields=max(3, nf // 3), seed=seed, cost=1.0))
+            if eqn != "glv" and d <= 2:
+                cases.append(dict(eq=eqn, d=d, fam="sep", nfields=max(3, nf // 2), seed=seed, cost=4.0))
     return cases
 
 
@@ -112,7 +114,119 @@ def _make_exact_cls():
     return Exact
 
 
+# ----------------------------------------------------------------------------- documented expressions (numpy)
+def np_burgers(f, z, nu, Tmax):
+    v, g, h = f.val(z)[0], f.grad(z)[0], f.hess(z)[0]
+    return g[0] + Tmax * (v * g[1] - nu * h[1, 1])
+
+
+def np_fisher(f, z, D_, r, g_, Tmax):
+    v, g, h = f.val(z)[0], f.grad(z)[0], f.hess(z)[0]
+    lap = sum(h[i, i] for i in range(1, f.D))
+    return g[0] + Tmax * (-D_ * lap - v * (r - g_ * v))
+
+
+def np_ou(f, z, al, mu, sg, Tmax):
+    v, g, h = f.val(z)[0], f.grad(z)[0], f.hess(z)[0]
+    x = z[1:]
+    drift = sum(-al[i] * v + al[i] * (mu[i] - x[i]) * g[1 + i] for i in range(2))
+    diff = sum(0.5 * sg[i] ** 2 * h[1 + i, 1 + i] for i in range(2))
+    return -g[0] + Tmax * (-drift + diff)
+
+
+def np_mass(fu, x):
+    g = fu.grad(x)
+    return g[0, 0] + g[1, 1]
+
+
+def np_ns(fu, fp, x, rho, nu):
+    v, g, h = fu.val(x), fu.grad(x), fu.hess(x)
+    gp = fp.grad(x)[0]
+    adv = np.array([v[0] * g[j, 0] + v[1] * g[j, 1] for j in range(2)])
+    lap = np.array([h[j, 0, 0] + h[j, 1, 1] for j in range(2)])
+    return adv + gp / rho - nu * lap
+
+
+def run_separable(case, rec):
+    """the built-in equations on separable networks: every grid value vs the documented expression"""
+    import itertools
+
+    import jax.numpy as jnp
+    import jinns
+    from jinns.parameters import Params, ParamsDict
+
+    from .. import nets
+
+    eqn, d = case["eq"], case["d"]
+    rng = np.random.default_rng([case["seed"], EQS.index(eqn), d, 77])
+    J = lambda v: jnp.asarray(v, dtype=float)
+    for k in range(case["nfields"]):
+        Tmax = TMAXS[k % 3]
+        r_ = 1 + k % 3
+        B = 2 + k % 3
+        if eqn in ("burgers", "fisher", "ou"):
+            dd = {"burgers": 1, "ou": 2}.get(eqn, d)
+            D = 1 + dd
+            if D == 3:
+                B = 2 + k % 2
+            sf = fields.SepField(1000 * case["seed"] + k, D, r_, 1)
+            sn = nets.SNet(sf, "nonstatio_PDE")
+            cols = rng.uniform(0.1, 1.2, (B, D))
+            if eqn == "burgers":
+                nu = float(rng.uniform(0.1, 1.0))
+                dl, eqp = jinns.loss.BurgerEquation(Tmax=Tmax), {"nu": J(nu)}
+                ref = lambda z: np_burgers(sf, z, nu, Tmax)
+            elif eqn == "fisher":
+                D_, r, g_ = rng.uniform(0.2, 1.5, 3)
+                dl, eqp = jinns.loss.FisherKPP(Tmax=Tmax), {"D": J(D_), "r": J(r), "g": J(g_)}
+                ref = lambda z: np_fisher(sf, z, D_, r, g_, Tmax)
+            else:
+                al, sg, mu = rng.uniform(0.4, 1.4, 2), rng.uniform(0.5, 1.2, 2), rng.uniform(-0.5, 0.5, 2)
+                dl, eqp = jinns.loss.OU_FPENonStatioLoss2D(Tmax=Tmax), {"alpha": J(al), "sigma": J(sg), "mu": J(mu)}
+                ref = lambda z: np_ou(sf, z, al, mu, sg, Tmax)
+            got = np.asarray(guard.call(dl.evaluate, J(cols[:, :1]), J(cols[:, 1:]), sn.spinn(),
+                                        Params(nn_params=sn.nn_params(), eq_params=eqp)))
+            exp = np.zeros((B,) * D + (1,))
+        else:
+            D = 2
+            sfu = fields.SepField(1000 * case["seed"] + k, 2, r_, 2)
+            sfp = fields.SepField(2000 * case["seed"] + k, 2, 1 + (k + 1) % 2, 1)
+            snu, snp = nets.SNet(sfu, "statio_PDE"), nets.SNet(sfp, "statio_PDE")
+            cols = rng.uniform(-0.5, 1.5, (B, 2))
+            rho, nu = float(rng.uniform(0.5, 2.0)), float(rng.uniform(0.2, 1.5))
+            pd = ParamsDict(nn_params={"u": snu.nn_params(), "p": snp.nn_params()}, eq_params={"rho": J(rho), "nu": J(nu)})
+            ud = {"u": snu.spinn(), "p": snp.spinn()}
+            if eqn == "mass":
+                dl = jinns.loss.MassConservation2DStatio(nn_key="u")
+                ref = lambda z: np.array([np_mass(sfu, z)])
+                exp = np.zeros((B, B, 1))
+            else:
+                dl = jinns.loss.NavierStokes2DStatio(u_key="u", p_key="p")
+                ref = lambda z: np_ns(sfu, sfp, z, rho, nu)
+                exp = np.zeros((B, B, 2))
+            got = np.asarray(guard.call(dl.evaluate, J(cols), ud, pd))
+        for idx in itertools.product(range(B), repeat=D):
+            z = np.array([cols[idx[i], i] for i in range(D)])
+            exp[idx] = ref(z)
+        rec.count("residuals_compared", exp.size)
+        rec.count("separable_grid_values", exp.size)
+        if np.max(np.abs(exp)) > 1e-6:
+            rec.nontrivial((eqn, "sep", d, k, B, r_, Tmax))
+        rec.set_sample(eq=eqn, fam="sep", B=B, got=got.reshape(-1)[:4], expected=exp.reshape(-1)[:4])
+        if got.shape != exp.shape and got.size == exp.size:
+            got = got.reshape(exp.shape)
+        if got.shape != exp.shape or not close(got, exp, 1e-8, 1e-9 * max(1.0, float(np.max(np.abs(exp))))):
+            offdiag = ""
+            if got.shape == exp.shape and exp.ndim >= 3 and close(np.swapaxes(got, 0, 1), exp, 1e-8, 1e-9):
+                offdiag = "/grid-axes-transposed"
+            rec.violation("%s/separable-residual%s" % (eqn, offdiag),
+                          "%s on a separable network: grid residual %s, documented expression %s (B=%d, Tmax=%g)"
+                          % (eqn, got.reshape(-1)[:4], exp.reshape(-1)[:4], B, Tmax), got=got, expected=exp)
+
+
 def run_case(case, rec):
+    if case["fam"] == "sep":
+        return run_separable(case, rec)
     import equinox as eqx
     import jax
     import jax.numpy as jnp
